@@ -116,13 +116,20 @@ func nativeReplay(key string, files []string, timeoutMs int, race bool) (map[str
 	cmd.Stderr = &out
 	err := cmd.Run()
 	txt := out.String()
-	for _, m := range outcomeRe.FindAllStringSubmatch(txt, -1) {
+	prevEnd := 0
+	for _, loc := range outcomeRe.FindAllStringSubmatchIndex(txt, -1) {
 		i := 0
-		if m[1] != "" {
-			i, _ = strconv.Atoi(m[1])
+		if loc[2] >= 0 {
+			i, _ = strconv.Atoi(txt[loc[2]:loc[3]])
 		}
+		o := strings.TrimSpace(txt[loc[4]:loc[5]])
+		// the race detector's reports for a replay precede its outcome line
+		if race && strings.Contains(txt[prevEnd:loc[0]], "WARNING: DATA RACE") {
+			o = "race (reported by the race detector); outcome " + o
+		}
+		prevEnd = loc[1]
 		if i < len(files) {
-			res[files[i]] = strings.TrimSpace(m[2])
+			res[files[i]] = o
 		}
 	}
 	if len(res) == 0 && err != nil {
@@ -142,6 +149,9 @@ func confirms(f *eng.Finding, outcome string) bool {
 		return outcome == "hang"
 	case "race":
 		return strings.Contains(outcome, "race") || strings.HasPrefix(outcome, "assert:")
+	case "unsupported":
+		// a path the encoder could not follow, run natively instead: any native failure is real
+		return strings.HasPrefix(outcome, "assert:") || strings.HasPrefix(outcome, "panic:") || outcome == "hang" || strings.HasPrefix(outcome, "race")
 	}
 	return false
 }
@@ -357,6 +367,7 @@ func cmdCheck(args []string) int {
 	var violations []*pending
 	var knownHits []*pending
 	var hangUnconfirmed int
+	nativeOnly := 0 // paths the encoder could not follow that were run natively and passed
 	for pkg, ps := range byPkg {
 		var files []string
 		race := false
@@ -403,6 +414,8 @@ func cmdCheck(args []string) int {
 					} else {
 						violations = append(violations, p)
 					}
+				} else if p.f.Kind == "unsupported" {
+					nativeOnly++
 				} else if p.f.Kind == "unwound" {
 					hangUnconfirmed++
 					fmt.Fprintf(os.Stderr, "unwound path not confirmed as a hang natively (outcome %q): bound too small? %s\n", o, p.f.Msg)
@@ -482,7 +495,7 @@ func cmdCheck(args []string) int {
 		"harnesses":             hdetail,
 		"assertion_obligations": asserts, "discharged_unsat": unsat, "discharged_by_folding": triv, "sat": sat, "inconclusive": unk,
 		"infeasible_paths": infeasible, "unsupported_paths": unsupp, "unwound_paths": unwound, "spurious_counterexamples": spurious,
-		"hang_candidates_unconfirmed": hangUnconfirmed,
+		"hang_candidates_unconfirmed": hangUnconfirmed, "unsupported_paths_run_natively_and_passed": nativeOnly,
 		"solver_time_s":               round1(solverTime), "instructions_interpreted": steps, "query_cache_hits": hits,
 		"known_findings_hit": knownLines,
 		"explanation":        "states = symbolic paths completed; transitions = SMT queries discharged (feasibility + assertion); every assertion obligation was decided by the solver (unsat) or by constant folding on that path",
